@@ -1,7 +1,7 @@
 """vmtar (ESXi visor tar) serializer.  struct only; layout from /bin/vmtar output (repository fixture test.vgz).
 
 A visor member header is a 512-byte ustar-shaped header with magic "visor  " at 257 and, little endian,
-u32 data offset at 496, u32 textPgs at 504, u32 fixUpPgs at 508.  All headers are contiguous, followed by two zero blocks;
+u32 data offset at 496, u32 text offset at 500, u32 textPgs at 504, u32 fixUpPgs at 508.  All headers are contiguous, followed by two zero blocks;
 file data lives in a data area behind them, at the absolute offset named by each header (vmtar aligns it to 4096, the
 alignment is not needed to read it).  Directories and empty files carry no data.  Standard ustar members keep their data
 inline (512-byte padded).  GNU long names: a pseudo member of type 'L' whose data is the name precedes the real header.
@@ -30,6 +30,9 @@ def hdr(name, size, typ=b"0", visor=True, offset_data=0, text=0, fix=0, mode=0o6
     if visor:
         b[257:265] = b"visor  \0"
         struct.pack_into("<I", b, 496, offset_data)
+        # 500: offset of the text section inside the member (vmtar writes it for executables); it does not take part in locating
+        # the member's data and is never zero here
+        struct.pack_into("<I", b, 500, 0x1000 * (text + 1) + 4)
         struct.pack_into("<II", b, 504, text, fix)
     else:
         b[257:263] = b"ustar\0"
